@@ -353,6 +353,14 @@ func runJoinScenario(w *ndWriter, c joinCase, seed int64, steps int) {
 			mutateMid()
 		}
 	}
+	if rng.Intn(3) == 0 && c.kind != "ingress" && c.kind != "rc" {
+		// many destination objects no source selects (another namespace): every refilter takes a while, so
+		// back-to-back source changes meet a join that is still busy with the previous one
+		for i := 0; i < 1500; i++ {
+			o := FObj{Kind: "pod", NS: "n9", Name: fmt.Sprintf("filler%d", i), Labels: []pair{{"z", "9"}}}
+			dst.Set(o.Build().(runtime.Object))
+		}
+	}
 	gated := rng.Intn(2) == 0
 	if gated {
 		src.gate = make(chan struct{})
